@@ -408,6 +408,8 @@ def _holders(sh, t, spec):
 def classify(case, impl, fail):
     if fail.get('kind') != 'counterexample':
         return None
+    if 'model differs from implementation' in str(fail.get('why', '')):
+        return None         # not the known behaviour (the model reproduces every known finding exactly)
     m = _WHY.search(str(fail.get('why', '')))
     if not m:
         return None
